@@ -85,4 +85,11 @@ Demote ==
   { <<"get", "0", "1", "0", "-1">>, <<"get", "TO", "1", "-1", "-1">>, <<"get", "0", "0", "0", "-1">>,
     <<"get", "0", "0", "1", "-1">>, <<"get", "HO", "1", "0", "-1">>, <<"putnew", "0", "-1">>, <<"drain">>,
     <<"twin">> }
+\* remote frees into reserved trees ("rfree" = macro: a whole tree allocated through a slot, then freed WITHOUT
+\* naming the slot, so the reserved tree's global counter reaches the tree size) x class changes x drains
+Remote ==
+  { <<"rfree", "2", "0">>, <<"rfree", "0", "0">>, <<"rfree", "1", "0">>,
+    <<"change", "0", "-1", "0", "2", "0">>, <<"change", "1", "-1", "0", "0", "0">>, <<"change", "-1", "-1", "TF", "2", "0">>,
+    <<"get", "0", "2", "0", "-1">>, <<"get", "0", "0", "0", "-1">>, <<"get", "HO", "1", "0", "-1">>,
+    <<"putnew", "0", "-1">>, <<"drain">>, <<"twin">> }
 =============================================================================
